@@ -410,3 +410,38 @@ Proof.
 Qed.
 
 Print Assumptions sign1_sign_marshal_unmarshal_verify.
+
+(* ---------------- countersignatures through the wire ---------------- *)
+(* the decoded holder verifies against the same parent whenever the holder it was serialised from does *)
+Lemma csig_verify_transfer s s' vf target ext :
+  sig_match s s' ->
+  fst (csig_verify (st_sigv s) vf target ext) = Acc tt -> fst (csig_verify s' vf target ext) = Acc tt.
+Proof.
+  intros (pb & ub & dp & du & Mp & Lpb & -> & Vp & Vu) Hv.
+  apply csig_verify_iff in Hv. apply csig_verify_iff.
+  cbn [sg_sig sg_h st_sigv] in *. destruct Hv as (Hsig & Hg & t & Ht & Hr).
+  split; [exact Hsig|]. split.
+  - unfold ensure_verification_alg in *. cbn [hP] in *. destruct Vp as (_ & Va & Vn).
+    destruct (alg_of (st_p s)) as [a|e| |] eqn:A; try discriminate.
+    + replace (alg_of (Some dp)) with (@Acc Z a); [exact Hg|]. symmetry. apply Va. destruct (st_p s); exact A.
+    + destruct e; try discriminate. replace (alg_of (Some dp)) with (@Rej Z EAlgNotFound); [exact Hg|]. symmetry. apply Vn. destruct (st_p s); exact A.
+  - exists t. split; [|exact Hr]. unfold csig_tbs in *. unfold marshal_protected in *. cbn [sg_h rawP glen gor hP] in *.
+    replace (0 <? len pb) with true by lia. unfold st_sigv in Ht. cbn [sg_h rawP hP glen gor Z.ltb Z.compare] in Ht, Mp.
+    rewrite Mp in Ht. exact Ht.
+Qed.
+
+(* a COSE_Countersignature with typed buckets that verifies against its parent: its serialisation is accepted by the
+   decoder, and the decoded holder verifies against the same parent, for every kind of parent and any verifier *)
+Theorem csig_wire_verifies s bs vf target ext :
+  st_ok s -> marshal_signature (st_sigv s) = Acc bs ->
+  fst (csig_verify (st_sigv s) vf target ext) = Acc tt ->
+  exists item s', bs = ser item /\ wf item = true /\ dec_signature_item item = Acc s' /\
+                  sg_sig s' = Some (st_sig s) /\
+                  fst (csig_verify s' vf target ext) = Acc tt.
+Proof.
+  intros Hok Hm Hv.
+  destruct (sig_item_roundtrip s bs Hok Hm) as (item & s' & -> & Wi & Di & Mi & _).
+  exists item, s'. repeat split; auto.
+  - destruct Mi as (pb & ub & dp & du & _ & _ & -> & _). reflexivity.
+  - eapply csig_verify_transfer; eauto.
+Qed.
